@@ -254,6 +254,15 @@ theorem C15_exports_unchanged (ops : List Op) (s s' : Sim) (hr : s.ready = true)
 theorem C15_toDf_needs_ready (s : Sim) (hr : s.ready = false) : step s .toDf = .error .notReady := by
   simp [step, hr]
 
+/-- Rates that `finalize` computes from already scaled series (`Deaths.cmr`, `Pregnancy.cbr`: `new / n_alive / units`
+    where `n_alive > 0`) do not depend on a positive scale factor: they equal the rate of the raw series. -/
+theorem C15_rates_scale_invariant (units k : Rat) (hk : 0 < k) (new alive : List Rat) :
+    rateSeries units (new.map (· * k)) (alive.map (· * k)) = rateSeries units new alive :=
+  rateSeries_scale units k hk new alive
+
+example : rateSeries (1/1000) ([2, 3, 1].map (· * 7)) ([100, 0, 50].map (· * 7)) = [some 20, none, some 20] := by
+  decide +kernel
+
 /-! ## total_pop / pop_scale -/
 
 /-- **pop_scale.** Both given → error; otherwise `total_pop = pop_scale × n_agents`, and the two ways of asking for
